@@ -18,3 +18,60 @@ package checkpoint
 //@   arith int
 //@   properties C07
 //@   modifies nothing
+
+// ---- bookkeeping maintenance (C17) -------------------------------------------------------
+// Abstract bookkeeping store behind the target connection:
+//   curDb    database the connection is on        cpDb   database holding the live checkpoint
+//                                                         found by GetCheckpoint (-2: none looked up)
+//   phase    progress of one re-keying: 0 nothing written, 1 new checkpoint fields written,
+//            2 name index repointed to them, 3 old fields deleted
+// The crash invariant "after every target request the next start still finds a position that
+// is not smaller and in the same database" is expressed as PRECONDITIONS of the abstract
+// requests: the index is repointed only after the new fields exist, old fields are deleted
+// only after the index names the new location, and the new fields are written in the
+// database that held the old ones.
+
+//@ func GetCheckpointHash(cli, runIds) (cpName, runId, err)
+//@   trusted abstract bookkeeping store: reads the name index in database 0
+//@   modifies curDb
+//@   ensures db0: err == nil ==> curDb == 0
+
+//@ func GetCheckpoint(cli, checkpointName, runIds) (cpi, db, err)
+//@   trusted abstract bookkeeping store: scans the databases (in map order) and leaves the connection on an arbitrary one
+//@   modifies curDb, cpDb
+//@   ensures found: err == nil ==> cpi != nil && fresh(cpi) && cpDb == db && db >= 0 - 1 && db <= 2147483647
+//@   ensures unknown_means_none: err == nil && db == 0 - 1 ==> cpi.RunId == "?"
+
+//@ func SetCheckpoint(cli, cp) (err)
+//@   trusted abstract bookkeeping store: writes the checkpoint fields in the CURRENT database
+//@   requires same_database [C17]: cpDb < 0 || curDb == cpDb
+//@   requires fresh_rekeying [C17]: phase == 0
+//@   modifies phase
+//@   ensures written: err == nil ==> phase == 1
+
+//@ func SetCheckpointHash(cli, runId, cpName) (err)
+//@   trusted abstract bookkeeping store
+//@   requires new_fields_exist_first [C17]: phase >= 1
+//@   modifies phase, curDb
+//@   ensures repointed: err == nil ==> phase == 2
+
+//@ func DelCheckpoint(cli, checkpointName, runId) (err)
+//@   trusted abstract bookkeeping store
+//@   requires index_repointed_first [C17]: phase >= 2
+//@   modifies phase, curDb
+//@   ensures deleted: err == nil ==> phase == 3
+
+//@ func DelCheckpointHash(cli, runId) (err)
+//@   trusted abstract bookkeeping store
+//@   requires old_fields_deleted_first [C17]: phase >= 3
+//@   modifies curDb
+
+//@ func UpdateCheckpoint
+//@   arith int
+//@   properties C17
+//@   replay checkpoint_UpdateCheckpoint
+//@   ghost var curDb mathint
+//@   ghost var cpDb mathint = 0 - 2
+//@   ghost var phase mathint = 0
+//@   requires nonnil: outCli != nil
+//@   modifies heap, curDb, cpDb, phase, replayFailed
